@@ -85,3 +85,17 @@ Definition lexltb (a b : FormatVersion) : bool :=
 
 Definition good_header (x y z : Z) : header :=
   {| h_format := Some FILE_FORMAT; h_version := Some [x; y; z]; h_id := Some "id"%string |}.
+
+(** Boolean form of the specification (extracted; it judges the implementation's answers). *)
+Definition eq_specb (a b : FormatVersion) : bool :=
+  (FormatVersion_vx a =? FormatVersion_vx b) && (FormatVersion_vy a =? FormatVersion_vy b) &&
+  (FormatVersion_vz a =? FormatVersion_vz b).
+Definition canRead_specb (lib f : FormatVersion) : bool :=
+  (FormatVersion_vx f =? FormatVersion_vx lib) && (FormatVersion_vy f <=? FormatVersion_vy lib).
+(** does a file with a complete header of version (x,y,z) open? *)
+Definition gate_specb (x y z : Z) (mode : FileMode) (force : bool) : bool :=
+  match mode with
+  | Overwrite => true
+  | ReadWrite => force || eq_specb (MkFormatVersion x y z) my_version
+  | ReadOnly => force || canRead_specb my_version (MkFormatVersion x y z)
+  end.
